@@ -143,6 +143,15 @@ def check(prop, tier):
                     if r["k"] in ("system", "worker"):
                         r["system"] = r["system"] + "[ld62]"
                 recs = recs + recs2
+            if prop == "C20" and variant == "plain" and sd == seeds[0]:
+                # the two library values of a reduction are also compared at working precision (both carry at most K(C09) u*S of
+                # roundoff each), with full-mantissa long double inputs
+                K20 = 2.0 * float(constants()["C09_K"])
+                recs2 = run_e1(exe, prop, tier, out, K20, use_seed=sd, extra=["--ldfull", "--maxdev", "1"])
+                for r in recs2:
+                    if r["k"] in ("system", "worker"):
+                        r["system"] = r["system"] + "[ld64,K=%g]" % K20
+                recs = recs + recs2
             for r in recs:
                 r["build"] = variant
                 if r["k"] in ("system", "worker"):
